@@ -55,6 +55,8 @@ def gen_cb(rng: Any, ids: list[int], depth: int, allow_service: bool, p_raise: f
         # unrelated one) as first argument, or the same as a method's second argument - the teardown belongs to the context
         # that is current at the call, whatever is passed
         cb["call_args"] = rng.choice(["none", "none", "other_ctx", "method_other_ctx", "kw_other_ctx"])
+        # the generator yields once (the usual case), returns or raises before its yield (nothing to tear down), or yields twice
+        cb["gen_shape"] = rng.choice(["normal"] * 5 + ["no_yield", "raises_before_yield", "yields_twice"])
     if kind != "sync":
         for _ in range(rng.randint(0, 2)):
             cb["steps"].append(rng.choice([["yield", rng.randint(1, 3)], ["sleep", rng.choice([0.5, 1, 2])]]))
@@ -145,6 +147,7 @@ class Run:
         self.outer_ctx: Any = None
         self.unrelated_ctx: Any = None
         self.other_ctx_calls = 0
+        self.gen_shapes: dict[str, int] = {}
 
     # ---- probes -------------------------------------------------------------------------
 
@@ -304,31 +307,47 @@ class Run:
         if route == "ctxteardown":
             probe = self.make_probe(cb)
 
-            @context_teardown
-            async def gen(*args: Any, **kwargs: Any) -> Any:
-                run.trace.log("setup", cid)
-                exc = yield
-                await probe(exc)
+            shape = cb.get("gen_shape", "normal")
 
-            class Holder:
-                @context_teardown
-                async def gen(self, other: Any) -> Any:
+            class SetupFailed(Exception):
+                pass
+
+            def make_agen() -> Any:
+                async def agen(*args: Any, **kwargs: Any) -> Any:
                     run.trace.log("setup", cid)
+                    if shape == "no_yield":
+                        return  # decides at run time that there is nothing to clean up: nothing is registered
+                    if shape == "raises_before_yield":
+                        raise SetupFailed(f"set-up part of @context_teardown function {cid} failed")
                     exc = yield
                     await probe(exc)
+                    if shape == "yields_twice":
+                        yield  # a second yield: the generator is closed here, the teardown step is over all the same
 
+                return agen
+
+            gen = context_teardown(make_agen())
+            Holder = type("Holder", (), {"gen": context_teardown(make_agen())})
             how = cb.get("call_args", "none")
             other = self.outer_ctx if self.outer_ctx is not None else self.unrelated_ctx
-            if how == "other_ctx":
-                await gen(other)
-            elif how == "method_other_ctx":
-                await Holder().gen(other)
-            elif how == "kw_other_ctx":
-                await gen(ctx=other)
-            else:
-                await gen()
+            try:
+                if how == "other_ctx":
+                    await gen(other)
+                elif how == "method_other_ctx":
+                    await Holder().gen(other)
+                elif how == "kw_other_ctx":
+                    await gen(ctx=other)
+                else:
+                    await gen()
+            except SetupFailed:
+                self.gen_shapes["raises_before_yield"] = self.gen_shapes.get("raises_before_yield", 0) + 1
+                return
             if how != "none":
                 self.other_ctx_calls += 1
+            if shape != "normal":
+                self.gen_shapes[shape] = self.gen_shapes.get(shape, 0) + 1
+            if shape == "no_yield":
+                return  # nothing was registered
             self.trace.log("register", cid, route=route, during_teardown=during_teardown)
             return
         # service task: the "callback" is the task's stop sequence
@@ -693,6 +712,8 @@ def features(run: Run) -> dict[str, int]:
         inc("resource_route_multi_type")
     if run.other_ctx_calls:
         inc("ctxteardown_called_with_another_context", run.other_ctx_calls)
+    for shape, n in run.gen_shapes.items():
+        inc(f"ctxteardown_generator_{shape}", n)
     if len(raised_ids) >= 2:
         inc("programs_with_2plus_raising")
     if any(byid[cid]["raises"] == "RERAISE" and cid in run.raised for cid in order):
